@@ -59,12 +59,44 @@ func main() {
 			fmt.Fprintln(os.Stderr, "error:", err)
 			os.Exit(2)
 		}
-		keys := fs.Args()
-		if len(keys) == 0 {
+		var keys []string
+		for _, a := range fs.Args() {
+			if strings.HasSuffix(a, ":") { // whole package
+				for k := range e.infos {
+					if strings.HasPrefix(k, a) {
+						keys = append(keys, k)
+					}
+				}
+			} else {
+				keys = append(keys, a)
+			}
+		}
+		if len(fs.Args()) == 0 {
 			for k := range e.infos {
 				keys = append(keys, k)
 			}
 		}
+		var lemmaResults []*FuncResult
+		for _, cf := range e.cfiles {
+			for _, l := range cf.Lemmas {
+				want := len(fs.Args()) == 0
+				for _, a := range fs.Args() {
+					if a == cf.Pkg+":" || a == "lemma:"+l.Name {
+						want = true
+					}
+				}
+				if want {
+					lemmaResults = append(lemmaResults, e.verifyLemma(l))
+				}
+			}
+		}
+		var fkeys []string
+		for _, k := range keys {
+			if !strings.HasPrefix(k, "lemma:") {
+				fkeys = append(fkeys, k)
+			}
+		}
+		keys = fkeys
 		sort.Strings(keys)
 		var results []*FuncResult
 		t0 := time.Now()
@@ -85,6 +117,7 @@ func main() {
 			}
 			results = append(results, e.verifyFunc(k))
 		}
+		results = append(results, lemmaResults...)
 		gen := time.Since(t0)
 		to := 10 * time.Second
 		if *timeout > 0 {
